@@ -157,6 +157,8 @@ int c16_client(struct c16_client *c, int sock)
 		case OP_END:
 			send_trace_end(sock);
 			break;
+		case OP_ABORT: /* handled by the caller once everything is sent */
+			break;
 		case OP_SLEEP:
 			usleep(op->num);
 			break;
